@@ -12,6 +12,8 @@ import time
 VERIF = os.path.dirname(os.path.dirname(os.path.abspath(__file__)))
 REPO = os.environ.get('SX_REPO', '/repo')
 REPO_PY = os.path.join(REPO, 'python')
+# scratch runs against a mutated copy (SX_REPO) keep their evidence/replays out of /verif
+OUT = os.environ.get('SX_OUT', VERIF if REPO == '/repo' else os.path.join(REPO, 'sx-out'))
 
 EXIT_OK, EXIT_VIOLATION, EXIT_INCONCLUSIVE = 0, 1, 2
 
@@ -201,7 +203,7 @@ def run_check(pid, tier, seed):
                 continue
             per_label[v['label']] = per_label.get(v['label'], 0) + 1
             h = hashlib.sha1((ob.name + wj).encode()).hexdigest()[:12]
-            d = os.path.join(VERIF, 'replays', pid)
+            d = os.path.join(OUT, 'replays', pid)
             os.makedirs(d, exist_ok=True)
             path = os.path.join(d, '%s-%s.json' % (ob.name, h))
             with open(path, 'w') as f:
@@ -232,7 +234,7 @@ def run_check(pid, tier, seed):
     for i, (obn, label, path, r) in enumerate(violations):
         if i >= 12:
             log('  ... and %d more replay-confirmed counterexamples under %s' % (
-                len(violations) - 12, os.path.join(VERIF, 'replays', pid)))
+                len(violations) - 12, os.path.join(OUT, 'replays', pid)))
             break
         log('VIOLATION property=%s replay=%s' % (pid, path))
         log('    obligation=%s label=%s signature=%s detail=%s' % (obn, label, r.get('signature'),
@@ -272,8 +274,8 @@ def run_check(pid, tier, seed):
     })
     evidence['violations'] = len(violations)
     evidence['wall_s'] = round(time.time() - t_start, 2)
-    os.makedirs(os.path.join(VERIF, 'evidence'), exist_ok=True)
-    with open(os.path.join(VERIF, 'evidence', '%s.json' % pid), 'w') as f:
+    os.makedirs(os.path.join(OUT, 'evidence'), exist_ok=True)
+    with open(os.path.join(OUT, 'evidence', '%s.json' % pid), 'w') as f:
         json.dump(evidence, f, indent=1, sort_keys=True)
     log('== %s: paths=%d decisions=%d queries=%d solver=%.1fs wall=%.1fs violations=%d known=%d inconclusive=%d' % (
         pid, total_paths, total_dec, total_q, solver_s, evidence['wall_s'], len(violations), len(known_hits),
